@@ -483,6 +483,9 @@ def run(ctx):
     glue.interleaved_walkers(ctx)
     glue.deep_tree_state(ctx)
     glue.realpath_follows_fs(ctx)
+    from props import clauses
+    clauses.windows_drive_bytes(ctx)
+    clauses.tilde_follows_fs(ctx)
     return ctx.finish(RULE)
 
 
